@@ -92,31 +92,31 @@ type Prog struct {
 
 // ---------------------------------------------------------------- constructors
 
-func Int(i int64) *E        { return &E{K: "int", I: i} }
-func Bool(b bool) *E        { return &E{K: "bool", B: b} }
-func Str(s string) *E       { return &E{K: "str", S: s} }
-func List(l ...int64) *E    { return &E{K: "list", L: l} }
-func Var(x int) *E          { return &E{K: "var", X: x} }
-func Bin(op string, a, b *E) *E { return &E{K: "bin", Op: op, A: a, Bx: b} }
-func Not(a *E) *E           { return &E{K: "not", A: a} }
-func Set(x int, e *E) *E    { return &E{K: "set", X: x, A: e} }
+func Int(i int64) *E                  { return &E{K: "int", I: i} }
+func Bool(b bool) *E                  { return &E{K: "bool", B: b} }
+func Str(s string) *E                 { return &E{K: "str", S: s} }
+func List(l ...int64) *E              { return &E{K: "list", L: l} }
+func Var(x int) *E                    { return &E{K: "var", X: x} }
+func Bin(op string, a, b *E) *E       { return &E{K: "bin", Op: op, A: a, Bx: b} }
+func Not(a *E) *E                     { return &E{K: "not", A: a} }
+func Set(x int, e *E) *E              { return &E{K: "set", X: x, A: e} }
 func OpSet(op string, x int, e *E) *E { return &E{K: "opset", Op: op, X: x, A: e} }
-func Inc(kind string, x int) *E { return &E{K: "inc", Op: kind, X: x} }
-func Call(f int, args ...*E) *E { return &E{K: "call", F: f, Args: args} }
+func Inc(kind string, x int) *E       { return &E{K: "inc", Op: kind, X: x} }
+func Call(f int, args ...*E) *E       { return &E{K: "call", F: f, Args: args} }
 
-func Echo(es ...*E) *S   { return &S{K: "echo", Es: es} }
-func ExprS(e *E) *S      { return &S{K: "expr", E: e} }
+func Echo(es ...*E) *S             { return &S{K: "echo", Es: es} }
+func ExprS(e *E) *S                { return &S{K: "expr", E: e} }
 func If(c *E, t []*S, els []*S) *S { return &S{K: "if", E: c, Then: t, Else: els} }
-func While(c *E, b []*S) *S { return &S{K: "while", E: c, Body: b} }
-func Do(b []*S, c *E) *S    { return &S{K: "do", E: c, Body: b} }
+func While(c *E, b []*S) *S        { return &S{K: "while", E: c, Body: b} }
+func Do(b []*S, c *E) *S           { return &S{K: "do", E: c, Body: b} }
 func For(inits []*E, c *E, incs []*E, b []*S) *S {
 	return &S{K: "for", Inits: inits, E: c, Incs: incs, Body: b}
 }
-func Foreach(e *E, k, v int, b []*S) *S { return &S{K: "foreach", E: e, KVar: k, VVar: v, Body: b} }
+func Foreach(e *E, k, v int, b []*S) *S       { return &S{K: "foreach", E: e, KVar: k, VVar: v, Body: b} }
 func Switch(e *E, cases []Case, dflt []*S) *S { return &S{K: "switch", E: e, Cases: cases, Dflt: dflt} }
-func Break(n int) *S    { return &S{K: "break", N: n} }
-func Continue(n int) *S { return &S{K: "continue", N: n} }
-func Ret(e *E) *S       { return &S{K: "ret", E: e} }
+func Break(n int) *S                          { return &S{K: "break", N: n} }
+func Continue(n int) *S                       { return &S{K: "continue", N: n} }
+func Ret(e *E) *S                             { return &S{K: "ret", E: e} }
 
 // ---------------------------------------------------------------- origami source
 
